@@ -1009,7 +1009,7 @@ fn channel_capacity(repo: &Path, kind: Kind) -> usize {
         .unwrap_or(16_384)
 }
 
-/// The signature of a receiver that overflowed (tokio broadcast: `RecvError::Lagged`, which the handlers swallow) and
+/// The signature of a receiver that overflowed (tokio broadcast: `RecvError::Lagged`) whose handler did not refill and
 /// was read only after the producer stopped: ascending, no duplicate, exactly ONE gap, and what follows the gap is
 /// exactly the last `cap` frames of the stream (the receiver resumes at the oldest frame the channel still holds).
 /// A frame lost at the join (S8) does not look like this unless the stream is longer than the capacity and the lost
@@ -1088,7 +1088,7 @@ fn oracle(c: &Case, o: &Outcome, cap: usize) -> Option<(String, String)> {
             let first_missing = (0..n).find(|s| seqs.binary_search(s).is_err()).unwrap_or(0);
             return Some((
                 format!(
-                    "{} stream of {} frames, subscriber {} (attached early, read late): {} frames from seq {} on were skipped silently - the receiver overflowed the {}-frame channel and the handler swallows RecvError::Lagged; body = 0..{} then the last {} frames",
+                    "{} stream of {} frames, subscriber {} (attached early, read late): {} frames from seq {} on were skipped silently - the receiver overflowed the {}-frame channel and the handler did not re-read the history after RecvError::Lagged; body = 0..{} then the last {} frames",
                     c.kind.name(), n, i + 1, n as usize - seqs.len(), first_missing, cap, first_missing, n - first_missing - (n - seqs.len() as u64)
                 ),
                 // the class names the capacity: the known finding is "lag beyond 16384 pending frames"; the same loss with
